@@ -21,15 +21,17 @@ Pool == {Rec(p, u, ps, us, NoPat) : p \in Names, u \in Names, ps \in Opt(Names),
 ValidPool == {r \in Pool : ValidRec(r)}
 
 \* dictionaries as sequences with distinct keys
-Keys1 == Names \cup {<<>>, <<64, 1>>}
+\* dictionary keys additionally contain a capital letter: case variants of one name (2 = 'A')
+LNames == Names \cup {<<2>>}
+Keys1 == LNames \cup {<<>>, <<64, 1>>}
 RECURSIVE DictSeqs(_, _, _)
 DictSeqs(K, V, n) == IF n = 0 THEN {<<>>}
                      ELSE LET S == DictSeqs(K, V, n - 1) IN
                           S \cup {Append(s, <<k, v>>) : s \in {s \in S : Len(s) = n - 1}, k \in K, v \in V}
 Distinct(S) == {s \in S : DistinctKeys(s)}
-PrefixMaps == Distinct(DictSeqs(Names, Names, MaxEntries))
+PrefixMaps == Distinct(DictSeqs(LNames, Names, MaxEntries))
 UriLists == {<<u>> : u \in Names} \cup {<<u, v>> : u \in Names, v \in Names}
-PriorityMaps == Distinct(DictSeqs(Names, UriLists, IF Tier = "quick" THEN 2 ELSE MaxEntries))
+PriorityMaps == Distinct(DictSeqs(LNames, UriLists, IF Tier = "quick" THEN 2 ELSE MaxEntries))
 RevNames == Names \cup {<<1, 3>>, <<3, 1>>}
 ReverseMaps == Distinct(DictSeqs(RevNames, Names, MaxEntries))
 Terms == {<<"str", u>> : u \in Names} \cup {<<"pdict", u>> : u \in Names} \cup {<<"other">>}
